@@ -19,13 +19,13 @@ fn tier_pick<T>(tier: &str, q: T, t: T) -> T {
 
 fn run_c19(tier: &str) -> i32 {
     let mut rep = Report::new("C19", tier);
-    rep.rule = "per runtime (tokio, smol): DFS over message sequences (1..3 messages, each size from the alphabet, some far larger than the 4.6 KB socket buffers) x driver schedules: the first N steps are choice points among {default = alternate sender/receiver, poll the sender, poll the receiver, drop the pending send future and go on} with a deviation budget, then the default schedule runs to completion; one- and two-directional traffic; plus listener cases {bound, inherited descriptor} x 1..8 clients; plus, with loom, every interleaving of 3..4 threads that create connections (identifiers pairwise distinct). Every schedule is a real execution over a real socketpair on one thread. Distinct = distinct (received sequence, abandoned sends)".into();
+    rep.rule = "per runtime (tokio, smol): DFS over message sequences (1..3 messages, each size from the alphabet, some far larger than the 4.6 KB socket buffers) x driver schedules: the first N steps are choice points among {default = alternate sender/receiver, poll the sender, poll the receiver, drop the pending send future and go on} with a deviation budget, then the default schedule runs to completion; one- and two-directional traffic; plus listener cases {bound, inherited descriptor} x 1..8 clients; plus listeners {bound, inherited descriptor left in blocking mode, inherited descriptor in non-blocking mode} x 1..3 clients x for each client whether accept is polled before it connects (must come back pending, then complete) or after, with traffic both ways on every accepted connection (a watchdog turns a listener that blocks its thread into a verdict); plus, with loom, every interleaving of 3..4 threads that create connections (identifiers pairwise distinct). Every schedule is a real execution over a real socketpair on one thread. Distinct = distinct (received sequence, abandoned sends)".into();
     rep.assumptions = vec![
         "the kernel socket is a FIFO whose answers are a function of the operation sequence; how many bytes each write accepts is observed, not enumerated".into(),
         "connection identifiers are compared for distinctness within one process, sequentially (the counter is a single atomic fetch_add)".into(),
         "an abandoned send may still be delivered later (whole); what must never happen is a partial, duplicated or corrupted frame".into(),
     ];
-    for g in ["message-larger-than-the-socket-buffer", "send-abandoned-while-pending", "message-sent-after-an-abandoned-one"] {
+    for g in ["message-larger-than-the-socket-buffer", "send-abandoned-while-pending", "message-sent-after-an-abandoned-one", "accept-polled-before-the-client-connects"] {
         rep.require_goal(g);
     }
     let cfg_base = Config { max_wall: std::time::Duration::from_secs(tier_pick(tier, 60, 1500)), ..Default::default() };
@@ -69,6 +69,23 @@ fn run_c19(tier: &str) -> i32 {
             Err((c, d)) => s.fail(c, d, json!({"listener_case": i})),
         }
     }));
+    // listeners, order of events: accept polled before / after each client connects
+    {
+        let cases = c19::listener_order_cases(if tier == "thorough" { 4 } else { 3 });
+        rep.add(sweep("listeners/accept-before-or-after-connect", cases.len() as u64, &Config { threads: 4, ..cfg_base.clone() }, |i, s| {
+            let (rt, mode, clients, mask) = cases[i as usize];
+            if mask != 0 {
+                s.goal("accept-polled-before-the-client-connects");
+            }
+            match c19::listener_order_case(rt, mode, clients, mask) {
+                Ok(()) => {
+                    s.sample(|| json!({"runtime": format!("{rt:?}"), "listener": c19::LISTENER_MODES[mode], "clients": clients, "accept_first_mask": mask}));
+                    s.pass(i)
+                }
+                Err((c, d)) => s.fail(c, d, json!({"listener_order_case": [format!("{rt:?}"), mode, clients, mask]})),
+            }
+        }));
+    }
     // connection identifiers under threads: zlink-core's id counter is a loom atomic in the `loom`
     // build flavor; the child explores every interleaving of 3..4 threads creating connections
     {
@@ -154,6 +171,15 @@ fn replay(path: &str) -> i32 {
                     Some(d) => Verdict::fail("sockets:connection-ids-not-distinct", d.to_string()),
                     None if j.is_null() => Verdict::fail("sockets:loom-child-failed", "no verdict from the loom child".to_string()),
                     None => Verdict::Pass(0),
+                }))
+            }
+            "C19" if v["case"]["listener_order_case"].is_array() => {
+                let c = &v["case"]["listener_order_case"];
+                let rt = if c[0] == "Tokio" { RtKind::Tokio } else { RtKind::Smol };
+                let r = c19::listener_order_case(rt, c[1].as_u64().unwrap_or(0) as usize, c[2].as_u64().unwrap_or(1) as usize, c[3].as_u64().unwrap_or(0) as u32);
+                (vec![format!("listener order case {c}")], Ok(match r {
+                    Ok(()) => Verdict::Pass(0),
+                    Err((c, d)) => Verdict::fail(c, d),
                 }))
             }
             "C19" => {
